@@ -79,6 +79,22 @@ class World:
         self.on_handle(h, path)
         return h
 
+    def io_faults_fired(self) -> int:
+        f = self.faults_fired
+        return f["eio_on_read"] + f["eio_partial"] + f["short_read_meta"]
+
+    def arm_io_fault(self, k: int, kind: str = "eio") -> None:
+        """Arm a transient I/O fault on every open handle of this world: it fires on the handle that makes the k-th read call."""
+        for _, h in self.handles:
+            if not h.closed:
+                h.eio_at = h.reads + k
+                h.fault_kind = kind
+
+    def disarm_io_faults(self) -> None:
+        for _, h in self.handles:
+            h.eio_at = None
+            h.fault_kind = "eio"
+
     def total_ledger(self):
         calls = req = ret = data = raw = 0
         for f in self.fs.files.values():
